@@ -853,6 +853,20 @@ pub fn acc_set() -> Vec<Program> {
         ext: vec![0],
         root0: None,
     });
+    // durabilities: an accumulating function that reads only a HIGH input next to a sibling that
+    // reads a LOW input and backdates; their caller is deep-verified after a LOW write
+    v.push(Program {
+        name: "acc-pre-durability".into(),
+        cells: vec![(0, Dur::Low), (1, Dur::High)],
+        nodes: vec![
+            NodeDef::new(Kind::Ev, seq(vec![Ex::Push(7), cell(1)])).dur(Dur::High),
+            NodeDef::new(Kind::Ev, Ex::and(cell(0), k(0))).dur(Dur::High),
+            NodeDef::new(Kind::Ev, seq(vec![call(1), call(0)])).dur(Dur::High),
+            NodeDef::new(Kind::Ev, seq(vec![Ex::ifc(0, Ex::Push(5), k(0)), call(2)])).dur(Dur::High),
+        ],
+        ext: vec![0],
+        root0: None,
+    });
     // pushes after calls: only the multiset is compared
     v.push(Program {
         name: "acc-post".into(),
@@ -1017,6 +1031,10 @@ pub fn persist_set() -> Vec<Program> {
         ext: vec![0],
         root0: None,
     });
+    // inputs and code of MEDIUM / HIGH durability: the per-durability "last changed" revisions
+    // must survive the round trip
+    v.push(with_durs(p3(1, 0, 1), Dur::High, Dur::Medium, Dur::High));
+    v.push(with_durs(p3(5, 3, 2), Dur::Medium, Dur::High, Dur::Medium));
     // two memos of the persisted function reach one shared non-persisted function (which alone
     // reads cell 1) through different non-persisted intermediates
     v.push(Program {
